@@ -61,6 +61,11 @@ ObsFs(r) ==
     LET a == r.after  b == r.before IN
     IF r.cfg.mode # "file" THEN (IF a.k = "absent" THEN "none" ELSE "other")
     ELSE CASE a.k = "absent" -> "absent"
+           [] a.k = "nofile" -> "none"             \* FILE = /dev/stdout: there is no file to look at, the bytes are on stdout
+           [] a.k = "fifo" ->                      \* len / digest / lcp: what the reader at the other end received
+                IF a.len = 0 THEN "fifo"
+                ELSE IF RefOk(r) /\ a.digest = r.ref.lua_digest /\ a.len = r.ref.lua_len THEN "complete"
+                ELSE IF a.lcp = a.len THEN "partial" ELSE "other"
            [] a.k = "noparent" -> "noparent"
            [] a.k = "dir" -> IF b.k = "dir" /\ a.digest = b.digest THEN "dir" ELSE "other"
            [] a.k = "device" -> "device"
@@ -120,6 +125,13 @@ IoErrWhat(r) == IF ~Has(printed, "io") \/ ObsExit(r) = "zero" THEN {}
                 ELSE IF r.se.panic /\ ~PanicIsDiagnostic THEN {"panic-message"}
                 ELSE {}
 
+\* errors without a source location: every imported file that does not exist (r.missing, from the program's
+\* construction) is named by some printed error (r.blocks.named: the missing files named on stdout / stderr)
+MissingWhat(r) ==
+    IF ~StdoutObservable THEN {}
+    ELSE IF \A i \in 1..Len(r.missing) : \E j \in 1..Len(r.blocks.named) : r.blocks.named[j] = r.missing[i]
+    THEN {} ELSE {"errors-missing"}
+
 FsWhat(r) == LET o == ObsFs(r) IN
              IF o = fs /\ r.extra_files = 0 /\ r.sources_intact THEN {}
              ELSE IF o \in {"partial", "other"} THEN {"partial-file"}
@@ -151,7 +163,7 @@ RequireWhat(r) ==
     ELSE IF cfg.req
       THEN IF /\ e.req_names = <<ExpectedModule(cfg)>>              \* one require statement in the text, and it names M (without one trailing .lua)
               /\ e.req_lead_blank                                  \* nothing but blanks between the preamble's end and it
-              /\ e.run.requires = <<ExpectedModule(cfg)>>           \* and executed exactly once, naming M
+              /\ (e.run.status # "load_error" => e.run.requires = <<ExpectedModule(cfg)>>)   \* and executed exactly once, naming M (if the chunk loads at all)
               /\ (q.emit.present => e.wo_req_digest = q.emit.digest)   \* in front of the unchanged program
            THEN {} ELSE {"require"}
       ELSE IF Len(e.req_names) = 0 /\ Len(e.run.requires) = 0 THEN {} ELSE {"require"}
@@ -169,12 +181,13 @@ NoStdWhat(r) ==
             /\ (cfg.mode = "run" /\ CompileSucceeds(cfg)) => (r.so.has_out = p.so.has_out /\ r.ref.run.out_digest = p.ref.run.out_digest)
          THEN {} ELSE {"no-std"}
 
-Fails(r) == ExitWhat(r) \cup ErrorsWhat(r) \cup LuaErrWhat(r) \cup IoErrWhat(r) \cup FsWhat(r) \cup SoWhat(r)
+Fails(r) == ExitWhat(r) \cup ErrorsWhat(r) \cup MissingWhat(r) \cup LuaErrWhat(r) \cup IoErrWhat(r) \cup FsWhat(r) \cup SoWhat(r)
             \cup ChunkWhat(r) \cup RunWhat(r) \cup BytesWhat(r) \cup RequireWhat(r) \cup NoStdWhat(r)
 
 ---------------------------------------------------------------------------
 (* Tool errors, never verdicts: the record is the one TLC derives, and the program is in its class *)
 WantStatus(c) == CASE Eff(c) = "acc" -> {"done"}
+                   [] Eff(c) = "rt" /\ c.why = "longline_nl" -> {"load_error"}
                    [] Eff(c) = "rt" /\ c.why = "assert" -> {"assert_failed"}
                    [] Eff(c) = "rt" /\ c.why = "unreachable" -> {"unreachable"}
                    [] Eff(c) = "rt" /\ c.why = "luaerr" -> {"lua_error:Call", "lua_error:Arith", "lua_error:Index", "lua_error:Other", "stack_overflow"}
@@ -191,6 +204,7 @@ RecordWellFormed(i) ==
     /\ Assert(~CompileSucceeds(c) => r.ref.nerrors \in ErrCounts(c), <<"rejected program without errors, or with more than MaxErrs", i, r.ref.nerrors>>)
     /\ Assert(r.ref.blocks.n = r.ref.nerrors, <<"the block recogniser does not find one block per library error", i, r.ref.blocks.n, r.ref.nerrors>>)
     /\ Assert(c.std \/ r.ref.run.out_len = 0, <<"std-free program prints", i>>)
+    /\ Assert(Len(r.missing) = PlantedMissing(c), <<"program does not miss the imports of its class", i, r.missing>>)
     /\ Assert(Canon(i) \in 1..N /\ NoReq(i) \in 1..N /\ Flip(i) \in 1..N, <<"partner outside the trace", i>>)
 
 EarlyIoFailure(r) == /\ cfg.mode = "file" /\ ~Writable(cfg) /\ ~CompileSucceeds(cfg)
